@@ -1,7 +1,8 @@
 #!/bin/sh
-# tools/try_patch.sh <patch.diff> <Cxx> [tier]   - run a check against a scratch copy of /repo with a patch applied
+# tools/try_patch.sh <patch.diff> <Cxx> [tier] [extra check arguments...]  - run a check against a scratch copy of /repo with a patch applied
 set -e
 P=$(readlink -f "$1"); PROP=$2; TIER=${3:-quick}
+[ $# -ge 3 ] && shift 3 || shift 2
 D=$(mktemp -d /tmp/emdmut.XXXXXX)
 trap 'rm -rf "$D"' EXIT
 git -C /repo archive HEAD | tar -x -C "$D"
@@ -9,4 +10,4 @@ git -C /repo archive HEAD | tar -x -C "$D"
 (cd /repo && git diff) | (cd "$D" && patch -p1 -s) 2>/dev/null || true
 (cd "$D" && patch -p1 -s < "$P")
 cd "$(dirname "$0")/.."
-VERIF_REPO="$D" ./check "$PROP" --tier "$TIER" --selftest
+VERIF_REPO="$D" ./check "$PROP" --tier "$TIER" --selftest "$@"
